@@ -154,9 +154,22 @@ func init() {
 		}
 		return fmt.Sprintln(host...)
 	})
-	for _, n := range []string{"fmt.Printf", "fmt.Println", "fmt.Print", "fmt.Fprintf", "fmt.Fprintln", "fmt.Fprint"} {
+	for _, n := range []string{"fmt.Printf", "fmt.Println", "fmt.Print"} {
 		reg(n, func(fr *frame, args []value) value { return tuple{0, iface{}} })
 	}
+	writeTo := func(fr *frame, w value, s value) value {
+		res := fr.i.invoke(fr, w.(iface), "Write", append([]value{}, strBytes(s)...)).(tuple)
+		return res
+	}
+	reg("fmt.Fprintf", func(fr *frame, args []value) value {
+		return writeTo(fr, args[0], fr.i.sprintf(fr, args[1], args[2].([]value)))
+	})
+	reg("fmt.Fprint", func(fr *frame, args []value) value {
+		return writeTo(fr, args[0], intrinsics["fmt.Sprint"](fr, args[1:]))
+	})
+	reg("fmt.Fprintln", func(fr *frame, args []value) value {
+		return writeTo(fr, args[0], intrinsics["fmt.Sprintln"](fr, args[1:]))
+	})
 
 	// ---------- encoding/binary ----------
 	reg("encoding/binary.Read", func(fr *frame, args []value) value {
